@@ -196,6 +196,9 @@ def _preprocess(csource):
     # First, remove the lines of the form '#line N "filename"' because
     # the "filename" part could confuse the rest
     csource, line_directives = _remove_line_directives(csource)
+    # Form feeds and vertical tabs are white space in C, but pycparser
+    # only knows about spaces and tabs
+    csource = csource.replace('\f', ' ').replace('\v', ' ')
     # Remove comments.  NOTE: this only work because the cdef() section
     # should not contain any string literals (except in line directives)!
     def replace_keeping_newlines(m):
